@@ -87,7 +87,12 @@ def emit_stage(rep, tier, work):
         if k == "compile":
             # the bytecode compiler's own refusals are fine; a failure of its self-validation is not
             d = r["detail"].lower()
-            k = "compile:self-validation" if ("invalid section" in d or "out of bounds" in d or "invalid bytecode" in d or "validation" in d) else "compile:refused"
+            # the container format's own error texts (bytecode/format.rs): the compiler built a module that its own
+            # validation rejects; anything else is a refusal of the bytecode compiler (unsupported construct, ...)
+            own = ("invalid bytecode", "unsupported bytecode version", "invalid section", "section out of bounds", "section overlap",
+                   "section alignment", "unexpected end of input", "missing required section", "invalid opcode", "invalid jump target",
+                   "invalid pou id", "invalid index ")
+            k = "compile:self-validation" if any(t in d for t in own) else "compile:refused"
         tally[k] = tally.get(k, 0) + 1
         if k in ("ok", "compile:refused"):
             continue
